@@ -13,43 +13,55 @@ def build():
 
 def run(tier, deadline):
     t0 = time.time(); build()
-    env = dict(os.environ, CAT_LIB=vbuild.build("prod"))
+    # the library as configured here (prod, -O0) and, in the thorough tier, the quick-sized enumeration once more on the library built the way a
+    # default ./configure builds it (dist: -O2, _FORTIFY_SOURCE=2, the repository's hardening flags)
+    envs = {v: dict(os.environ, CAT_LIB=vbuild.build(v)) for v in (("prod",) if tier == "quick" else ("prod", "dist"))}
     sets = [("%ndslh5.x", 5), ("%n[]^s", 5), ("%nmZqd", 5)] if tier == "quick" else [("%ndslh5.x", 7), ("%n[]^sd", 7), ("%n*c-Ljztd", 6), ("%nmZqIs'", 6)]
     jobs = []
     for alpha, L in sets:
         nsh = 16 if len(alpha) ** L > 50000 else 2
         for fam in ("narrow", "wide"):
             for sh in range(nsh): jobs.append([fam, str(L), alpha, str(sh), str(nsh)])
+    def mkjobs(tier):
+        sets = [("%ndslh5.x", 5), ("%n[]^s", 5), ("%nmZqd", 5)] if tier == "quick" else [("%ndslh5.x", 7), ("%n[]^sd", 7), ("%n*c-Ljztd", 6), ("%nmZqIs'", 6)]
+        jobs = []
+        for alpha, L in sets:
+            nsh = 16 if len(alpha) ** L > 50000 else 2
+            for fam in ("narrow", "wide"):
+                for sh in range(nsh): jobs.append([fam, str(L), alpha, str(sh), str(nsh)])
+        return jobs
+    jobs = [("prod", j) for j in jobs] + ([("dist", j) for j in mkjobs("quick")] if tier == "thorough" else [])
     viol = {}; internal = []; tot = {"formats": 0, "calls": 0, "calls_with_n": 0, "n_rejected": 0}; timed_out = []
-    def one(j):
+    def one(vj):
+        v, j = vj
         left = deadline - (time.time() - t0)
-        try: return j, subprocess.run([BIN] + j, capture_output=True, text=True, env=env, timeout=max(5, left))
-        except subprocess.TimeoutExpired: timed_out.append(j); return j, None
+        try: return vj, subprocess.run([BIN] + j, capture_output=True, text=True, env=envs[v], timeout=max(5, left))
+        except subprocess.TimeoutExpired: timed_out.append(vj); return vj, None
     with ThreadPoolExecutor(16) as ex:
-        for j, r in ex.map(one, jobs):
+        for (v, j), r in ex.map(one, jobs):
             if r is None: continue
             if r.returncode != 0: internal.append(f"{j}: exit {r.returncode} {r.stderr[-200:]}"); continue
             for ln in r.stdout.splitlines():
                 if not ln.startswith("{"): continue
                 o = json.loads(ln)
-                if o["t"] == "viol": e = viol.setdefault(o["sig"], [0, o["case"]]); e[0] += o["n"]
+                if o["t"] == "viol": e = viol.setdefault(o["sig"], [0, o["case"], v]); e[0] += o["n"]
                 elif o["t"] == "stat":
                     for k in tot: tot[k] += o[k]
     if internal:
         for m in internal[:10]: print("INTERNAL-ERROR:", m, file=sys.stderr)
         return 2
-    violations = [common.Violation(sig, "", f"property=C09\nsignature={sig}\ncase={case}\n", n) for sig, (n, case) in sorted(viol.items())]
+    violations = [common.Violation(sig, "" if v == "prod" else "library build: " + v, f"property=C09\nvariant={v}\nsignature={sig}\ncase={case}\n", n) for sig, (n, case, v) in sorted(viol.items())]
     def confirm(v):
         kv = dict(l.split("=", 1) for l in v.replay_text.strip().splitlines()); return replay(kv, quiet=True) == 1
     cov = {"evaluations": tot["calls"], "distinct_nontrivial": tot["calls_with_n"],
            "rule": "ALL format strings of length 0..L over each alphabet are passed to the 8 narrow + 8 wide printf_s and 6 narrow + 6 wide scanf_s entry points (buffers, memory streams, redirected stdout/stdin); every variadic slot points to its own sentinel block at a low fixed address; oracle: sentinels byte-identical except where the reference parser of the conversion grammar entitles a non-n scanf conversion, and every format with an n conversion is reported; non-trivial = calls whose format contains an n conversion",
            "samples": ["narrow sscanf_s \"%ln\"", "wide swprintf_s \"%%%n\"", "narrow vfscanf_s \"%d%5n\"", "wide fwscanf_s \"%%[%n\"", "narrow printf_s \"%.hhn\""],
-           "alphabets": [{"alphabet": a, "max_length": L} for a, L in sets], "formats": tot["formats"], "formats_with_n_rejected_calls": tot["n_rejected"], "jobs_timed_out": len(timed_out)}
+           "alphabets": [{"alphabet": a, "max_length": L} for a, L in sets], "formats": tot["formats"], "formats_with_n_rejected_calls": tot["n_rejected"], "jobs_timed_out": len(timed_out), "library_builds": sorted(envs)}
     return common.finish("C09", tier, t0, cov, violations, ["glibc printf/scanf store through arguments only for conversions (n for printf)", "the harness's reference parser (60 lines) implements the C conversion grammar; formats it cannot parse are judged only on slots before the unparsable directive"], confirm=confirm, exhaustive=not timed_out)
 
 
 def replay(kv, quiet=False):
     build(); c = kv["case"].split()
-    r = subprocess.run([BIN, "replay"] + c + ["x"], capture_output=True, text=True, env=dict(os.environ, CAT_LIB=vbuild.build("prod")))
+    r = subprocess.run([BIN, "replay"] + c + ["x"], capture_output=True, text=True, env=dict(os.environ, CAT_LIB=vbuild.build(kv.get("variant", "prod"))))
     if not quiet: sys.stdout.write(r.stdout); sys.stdout.write(r.stderr)
     return r.returncode
